@@ -200,6 +200,51 @@ fn check_history(report: &Report, rt: &Arc<tokio::runtime::Runtime>, hist: &[H],
             return;
         }
     }
+    // task API (short histories only: the task part does not depend on the thread's history)
+    if hist.len() <= 1 {
+        let rt = fx.rt.clone();
+        let before = fx.log_bytes();
+        let req = Request::builder().method("POST").uri("/tasks").header("content-type", "application/json").body(Body::from(json!({"tool": "bash", "args": {"command": "printf x; printf y >&2"}}).to_string())).unwrap();
+        let resp = rt.block_on(router.clone().oneshot(req)).expect("infallible");
+        let bytes = rt.block_on(http_body_util::BodyExt::collect(resp.into_body())).map(|b| b.to_bytes()).unwrap_or_default();
+        let tid = serde_json::from_slice::<Value>(&bytes).ok().and_then(|v| v["task_id"].as_str().map(|s| s.to_string())).unwrap_or_default();
+        if !tid.is_empty() {
+            let t0 = std::time::Instant::now();
+            loop {
+                let resp = rt.block_on(router.clone().oneshot(Request::builder().uri(format!("/tasks/{tid}")).body(Body::empty()).unwrap())).expect("infallible");
+                let b = rt.block_on(http_body_util::BodyExt::collect(resp.into_body())).map(|b| b.to_bytes()).unwrap_or_default();
+                let st = serde_json::from_slice::<Value>(&b).ok().and_then(|v| v["status"].as_str().map(|s| s.to_string())).unwrap_or_default();
+                if matches!(st.as_str(), "exited" | "failed" | "cancelled") || t0.elapsed() > std::time::Duration::from_secs(10) {
+                    break;
+                }
+                rt.block_on(async { tokio::time::sleep(std::time::Duration::from_millis(2)).await });
+            }
+            rt.block_on(async { tokio::time::sleep(std::time::Duration::from_millis(20)).await });
+            if let Err(msg) = check_suffix(&before, &fx.log_bytes()) {
+                report.violation("C02:not_append_only:task_run", case_json(hist, hist.len(), json!({"task": tid})), &format!("a background task run: {msg}"));
+                return;
+            }
+            let len = fx.log_bytes().len();
+            for uri in ["/tasks".to_string(), format!("/tasks/{tid}"), format!("/tasks/{tid}/output?stream=stdout&offset_bytes=0&max_bytes=10"), format!("/tasks/{tid}/output?stream=stderr&offset_bytes=1&max_bytes=0"), format!("/tasks/{tid}/events"), "/tasks/no-such-task".to_string(), "/tasks/no-such-task/output?stream=stdout".to_string()] {
+                let resp = rt.block_on(router.clone().oneshot(Request::builder().uri(&uri).body(Body::empty()).unwrap()));
+                drop(resp);
+                let now = fx.log_bytes().len();
+                if now != len {
+                    report.violation("C02:read_only_call_wrote:task_route", case_json(hist, hist.len(), json!({"call": format!("GET {uri}")})), &format!("GET {uri} grew the log from {len} to {now} bytes"));
+                    return;
+                }
+            }
+            // cancelling a finished task is a no-op
+            let resp = rt.block_on(router.clone().oneshot(Request::builder().method("POST").uri(format!("/tasks/{tid}/cancel")).header("content-type", "application/json").body(Body::from("{\"reason\":\"late\"}")).unwrap()));
+            drop(resp);
+            rt.block_on(async { tokio::time::sleep(std::time::Duration::from_millis(10)).await });
+            if fx.log_bytes().len() != len {
+                report.violation("C02:read_only_call_wrote:cancel_finished_task", case_json(hist, hist.len(), json!({"task": tid})), "cancelling a task that already ended appended frames");
+                return;
+            }
+            report.count("histories_with_task_api_part", 1);
+        }
+    }
     {
         let before = fx.log_bytes();
         let sid = uuid::Uuid::new_v4().to_string();
@@ -243,7 +288,7 @@ pub fn run(opts: Opts) -> i32 {
          handoff, drop caches, restart}; after every step: byte-prefix + whole-line JSON suffix + only cache/snapshot/.rip files changed; \
          in every reached state the read-only set (replay, cut points over stride x limit domains, status, cursor status, no-match rotate, \
          selection status, list/get, dry-run (x block_on_inflight x execute) and nothing-plannable auto/schedule, stride 0, unknown / hostile thread ids incl. '../events', \
-         and GET routes incl. the three SSE handlers and /config/doctor) must add zero bytes, also with caches dropped and after restart; after the history one frame is appended through a \
+         and GET routes incl. the three SSE handlers and /config/doctor) must add zero bytes, also with caches dropped and after restart; short histories also run a background task through POST /tasks (append-only while it runs; its GET routes and a late cancel add nothing); after the history one frame is appended through a \
          second writer handle opened before it, then one by the engine (both must land at the end); \
          distinct = history",
     );
